@@ -139,10 +139,14 @@ def tlc(module, cfg, pid, workers=8, timeout=1800, env=None, extra=None, xmx="8g
     if env:
         e.update({k: str(v) for k, v in env.items()})
     t0 = time.time()
-    try:
-        p = subprocess.run(cmd, cwd=SPEC, stdout=subprocess.PIPE, stderr=subprocess.STDOUT, text=True, timeout=timeout, env=e)
-    except subprocess.TimeoutExpired:
-        raise ToolError("TLC timed out on %s/%s after %ds" % (module, cfg, timeout))
+    for attempt in range(3):
+        try:
+            p = subprocess.run(cmd, cwd=SPEC, stdout=subprocess.PIPE, stderr=subprocess.STDOUT, text=True, timeout=timeout, env=e)
+        except subprocess.TimeoutExpired:
+            raise ToolError("TLC timed out on %s/%s after %ds" % (module, cfg, timeout))
+        if p.returncode not in (143, 137, -15, -9):
+            break
+        log("[tlc] %s/%s was killed by a signal (rc=%d), retrying" % (module, cfg, p.returncode))
     r = TlcResult(p.returncode, p.stdout, time.time() - t0)
     if keep_out:
         with open(os.path.join(workdir(pid), "tlc-%s.out" % os.path.splitext(os.path.basename(cfg))[0]), "w") as f:
@@ -382,3 +386,19 @@ def corrupt_trace(src, dst, pick, mutate):
                     line = json.dumps(e, separators=(",", ":")) + "\n"
             g.write(line)
     return hit
+
+
+def binding_selftest(out, pid, module, cfg, src_trace, n_events, pick, mutate, what, xmx="4g"):
+    """Demonstrates that the trace specification is bound to the recorded observations: one recorded field of an
+    accepted trace is corrupted and TLC must reject the copy at exactly that line.  Skipped when the run already
+    found violations (the trace is then not an accepted one).  Returns a description for the evidence file."""
+    if out.violations:
+        return "skipped (violations found)"
+    dst = os.path.join(workdir(pid), "trace_selftest.ndjson")
+    hit = corrupt_trace(src_trace, dst, pick, mutate)
+    if hit is None:
+        selftest_fail(pid, "no event suitable for corruption in %s (vacuous trace?)" % src_trace)
+    v = tlc_trace(module, cfg, pid, dst, n_events, sub="selftest", xmx=xmx)
+    if v.accepted or v.matched != hit - 1:
+        selftest_fail(pid, "corrupted trace (line %d) was not rejected at that line (matched %s)" % (hit, v.matched))
+    return "%s at trace line %d rejected by TLC" % (what, hit)
